@@ -41,7 +41,9 @@ const (
 	keyShared = formats.Format("application/x-mcverif-shared")
 )
 
-func privKey(i int) formats.Format { return formats.Format(fmt.Sprintf("application/x-mcverif-private-%d", i)) }
+func privKey(i int) formats.Format {
+	return formats.Format(fmt.Sprintf("application/x-mcverif-private-%d", i))
+}
 
 type namedU struct{ name string }
 
@@ -258,18 +260,25 @@ func alphabet() []call {
 }
 
 // resetState restores the package state the scenarios start from (no execution in progress).
-func resetState(nThreads int) {
+//
+// fresh=false: a registry call has completed on every package before the threads start (the usual state of a
+// running program). fresh=true: the state of a process that has not called the writer package yet, so the
+// threads race through its lazy first-use initialisation (the reader package initialises eagerly at load).
+func resetState(nThreads int, fresh bool) {
 	vsync.ResetAll()
 	reader.RegisterUnserializer(keyShared, &namedU{"u-initial"})
 	for i := 0; i < 4; i++ {
 		reader.UnregisterUnserializer(privKey(i))
 	}
-	writer.RegisterSerializer(keyShared, &namedS{"s-initial"})
+	if !fresh {
+		writer.RegisterSerializer(keyShared, &namedS{"s-initial"})
+	}
 }
 
 type scenario struct {
 	// calls[t] = call indices executed by thread t in program order
 	calls [][]int
+	fresh bool // start from the not-yet-initialised state (see resetState)
 }
 
 func (s scenario) describe(al []call) []string {
@@ -280,6 +289,9 @@ func (s scenario) describe(al []call) []string {
 			names = append(names, al[c].Name)
 		}
 		out = append(out, fmt.Sprintf("T%d: %s", t, strings.Join(names, "; ")))
+	}
+	if s.fresh {
+		out = append(out, "start: first use (no writer call completed before)")
 	}
 	return out
 }
@@ -297,7 +309,7 @@ func sequentialResults(al []call, s scenario) map[string]bool {
 	var rec func()
 	rec = func() {
 		if len(order) == total {
-			resetState(n)
+			resetState(n, s.fresh)
 			res := make([][]string, n)
 			p := make([]int, n)
 			for _, t := range order {
@@ -345,6 +357,20 @@ func Run(c *engine.Ctx) {
 	c.Group("pairs")
 	c.Bound("pairs", fmt.Sprintf("all %d unordered pairs of %d calls as 2-thread scenarios, every schedule with <= %d preemptions", len(scenarios), len(al), bound))
 	runScenarios(c, al, scenarios, bound)
+
+	if !c.IsReplay() && !sharedFidelity(c, al) {
+		c.Selftest("first_use_reset_faithful", "false")
+		c.Cap("first-use scenarios not run: the in-process reset does not reproduce a new process on this tree")
+	} else {
+		c.Selftest("first_use_reset_faithful", "true")
+		var freshPairs []scenario
+		for _, sc := range scenarios {
+			freshPairs = append(freshPairs, scenario{calls: sc.calls, fresh: true})
+		}
+		c.Group("pairs-first-use")
+		c.Bound("pairs-first-use", fmt.Sprintf("the same %d pairs started from the first-use state (lazy initialisation not yet run), every schedule with <= %d preemptions", len(freshPairs), bound))
+		runScenarios(c, al, freshPairs, bound)
+	}
 
 	if !c.Thorough() {
 		// quick: three-thread registry scenarios with a preemption bound of 1
@@ -396,6 +422,77 @@ func Run(c *engine.Ctx) {
 	}
 }
 
+// freshFidelity: the in-process reset must reproduce what each call returns in a new process; a package-level
+// state the seam does not own (a plain variable behind a lock, say) would make every later execution start from a
+// stale state. Every worker decides this for itself, identically; when the reset is not faithful the first-use
+// scenarios are not run and the evidence says so (reduced coverage, never an alarm).
+func freshFidelity(c *engine.Ctx, al []call) bool {
+	self, _ := os.Executable()
+	for ci := range al {
+		cmd := exec.Command(self, "--aux", "c17first", fmt.Sprint(ci))
+		out, err := cmd.CombinedOutput()
+		want := ""
+		for _, l := range strings.Split(string(out), "\n") {
+			if strings.HasPrefix(l, "FIRST:") {
+				want = strings.TrimPrefix(l, "FIRST:")
+			}
+		}
+		if err != nil || want == "" {
+			c.Note(fmt.Sprintf("first-use fidelity: child process for %s failed (%v)", al[ci].Name, err))
+			return false
+		}
+		for round := 0; round < 2; round++ {
+			resetState(1, true)
+			if got := al[ci].Do(0); got != want {
+				c.Note(fmt.Sprintf("first-use fidelity: %s returns %q in a new process but %q after the in-process reset: some package-level state is outside the seam", al[ci].Name, want, got))
+				return false
+			}
+		}
+	}
+	_ = sched.NewRaceReports()
+	return true
+}
+
+// sharedFidelity: shard 0 decides and publishes the verdict in the run's scratch directory; the other workers
+// wait for it (and decide themselves if it does not appear).
+func sharedFidelity(c *engine.Ctx, al []call) bool {
+	f := filepath.Join(os.Getenv("MCVERIF_SCRATCH"), "c17-first-use-fidelity")
+	if c.Shard != 0 && os.Getenv("MCVERIF_SCRATCH") != "" {
+		for i := 0; i < 600; i++ {
+			if b, err := os.ReadFile(f); err == nil && len(b) > 0 {
+				if strings.HasPrefix(string(b), "true") {
+					return true
+				}
+				c.Note(strings.TrimPrefix(string(b), "false:"))
+				return false
+			}
+			time.Sleep(200 * time.Millisecond)
+		}
+	}
+	ok := freshFidelity(c, al)
+	if os.Getenv("MCVERIF_SCRATCH") != "" {
+		v := "true"
+		if !ok {
+			v = "false:" + strings.Join(c.ResultForOutput().Notes, "; ")
+		}
+		_ = os.WriteFile(f+".tmp", []byte(v), 0o644)
+		_ = os.Rename(f+".tmp", f)
+	}
+	return ok
+}
+
+// AuxFirst runs one call alone in this new process (first use of the library) and prints its result.
+func AuxFirst(args []string) int {
+	rw.SilenceStdout()
+	prepareInputs()
+	al := alphabet()
+	ci := decodeInts(args[0])[0]
+	// same thread-private registrations as the in-process reset, reader side only
+	reader.RegisterUnserializer(keyShared, &namedU{"u-initial"})
+	fmt.Fprintln(os.Stderr, "FIRST:"+al[ci].Do(0))
+	return 0
+}
+
 func runScenarios(c *engine.Ctx, al []call, scenarios []scenario, bound int) {
 	for _, s := range scenarios {
 		s := s
@@ -412,7 +509,7 @@ func runScenarios(c *engine.Ctx, al []call, scenarios []scenario, bound int) {
 			schedules := 0
 			outcomes := map[string]bool{}
 			newBodies := func() []func() {
-				resetState(n)
+				resetState(n, s.fresh)
 				res = make([][]string, n)
 				bodies := make([]func(), n)
 				for ti := 0; ti < n; ti++ {
@@ -487,7 +584,11 @@ func confirmRace(s scenario, choices []int, sig string) int {
 	n := 0
 	for i := 0; i < 4; i++ {
 		base := filepath.Join(os.Getenv("MCVERIF_SCRATCH"), fmt.Sprintf("tsanc-%d-%d", os.Getpid(), i))
-		cmd := exec.Command(self, "--aux", "c17race", encode(s.calls), encodeInts(choices))
+		start := "warm"
+		if s.fresh {
+			start = "fresh"
+		}
+		cmd := exec.Command(self, "--aux", "c17race", encode(s.calls), encodeInts(choices), start)
 		cmd.Env = append(os.Environ(), "GORACE=halt_on_error=0 log_path="+base, "MCVERIF_TSAN_LOG="+base)
 		out, _ := cmd.CombinedOutput()
 		if strings.Contains(string(out), "RACE:") { // any report of the replayed schedule confirms (the two stacks may be listed in either order)
@@ -544,7 +645,10 @@ func Aux(args []string) int {
 	al := alphabet()
 	_ = sched.NewRaceReports()
 	n := len(s.calls)
-	resetState(n)
+	if len(args) > 2 && args[2] == "fresh" {
+		s.fresh = true
+	}
+	resetState(n, s.fresh)
 	bodies := make([]func(), n)
 	for ti := 0; ti < n; ti++ {
 		ti := ti
